@@ -114,8 +114,8 @@ const c02ContWrap = 99
 
 var c02Alphabets = [][]byte{
 	[]byte("0123456789abcdefghijklmnopqrstuvwxyz-:/ ."),
-	nil, // any octet
-	nil, // octets with long codes, filled in init
+	nil,              // any octet
+	nil,              // octets with long codes, filled in init
 	[]byte("&*,;XZ"), // 8-bit codes: Huffman length == raw length
 }
 
